@@ -47,7 +47,7 @@ class StreamModel(Model):
     def observe(self, w, it):
         objs = w.objs
         handles = {}
-        for n in ("s0", "s1", "r0", "r1"):
+        for n in ("s0", "s1", "s2", "r0", "r1", "r2"):
             if n in objs:
                 handles[n] = ("closed:" + n) not in objs
         st = objs["s0"].statistics()
@@ -59,8 +59,8 @@ class StreamModel(Model):
                        "handles": handles, "nitems": nitems}}
 
     def extra_key(self, w, it, rename):
-        return tuple(sorted((n, ("closed:" + n) in w.objs) for n in ("s0", "s1", "r0", "r1")
-                            if n in w.objs))
+        return tuple(sorted((n, ("closed:" + n) in w.objs)
+                            for n in ("s0", "s1", "s2", "r0", "r1", "r2") if n in w.objs))
 
     # -- alphabet ---------------------------------------------------------------------------
     def _ops(self, a, info, item, busy_handles=()):
@@ -85,6 +85,10 @@ class StreamModel(Model):
                 ops.append(["close", h])
             if "s1" not in hs and self.cloning:
                 ops.append(["clone", "s0", "s1"])
+            elif "s2" not in hs and self.cloning and not hs["s0"]:
+                ops.append(["clone", "s0", "s2"])  # cloning a handle that has been closed
+            if "r1" in hs and "r2" not in hs and self.cloning and not hs["r0"]:
+                ops.append(["clone", "r0", "r2"])
             if "r1" not in hs and self.cloning:
                 ops.append(["clone", "r0", "r1"])
         return ops
